@@ -357,3 +357,145 @@ Print Assumptions C06_prefix_partial.
 Print Assumptions C06_prefix_items_partial.
 Print Assumptions C06_tree_settled_partial.
 Print Assumptions C06_collector_keeps_nodes.
+
+(** * The same over the EXTENDED grammar (proofs in [Proofs/Prefix2Lock.v], [Proofs/Prefix2.v])
+
+    [Doc/DocGrammar2.v]: the core grammar plus environments (with arguments, math-mode
+    bodies), specials, optional / star / single-token / verbatim arguments, verbatim
+    macros and environments.  PARTIAL in two respects: (1) the side conditions of the
+    extended grammar are evaluated against the FOLLOW STRING, so the document has to be
+    well formed IN FRONT OF what is appended — [ok_doc2_before cx d (stray_text c ++ g)] =
+    [ok_items2 cx (walker_state cx) [] (d_items2 d) (d_trail2 d ++ stray_text c ++ g) &&
+    ws_ok (d_trail2 d)], the hypothesis of the exported simulation
+    [C02_items_simulation2_partial] — which [ok_doc2 cx d] alone does not give (a document
+    that ends with a comment without newline swallows whatever is appended;
+    [C06_prefix2_follow_needed]); (2) only the stray-closing-token theorem is lifted, not
+    [C06_prefix_partial] (arbitrary continuation). *)
+From PLV Require Import Doc.DocGrammar2 Proofs.Prefix2Lock Proofs.Prefix2.
+
+(** ** A stray closing token after a valid EXTENDED document, then ANY garbage [g]:
+    tolerant parsing returns EXACTLY the node list of the document and stops right after
+    the token *)
+Theorem C06_prefix_closing2_partial : forall cx d c g,
+  ok_doc2_before cx d (stray_text c ++ g) = true -> stray_wf c ->
+  parse_top (unparse2 d ++ stray_text c ++ g) true cx (walker_state cx)
+  = Ok (ONode (Some (gen_nodelist 0 (fst (tree_of2 cx (walker_state cx) 0 d)))))
+       (length (unparse2 d) + length (stray_text c)).
+Proof. exact prefix_closing2. Qed.
+
+(** the same for a list of extended items, whitespace [tr], the token, the garbage *)
+Theorem C06_prefix_closing2_items_partial : forall cx l tr c g,
+  ok_items2 cx (walker_state cx) [] l (tr ++ stray_text c ++ g) = true -> ws_ok tr = true -> stray_wf c ->
+  parse_top (unparse_items2 l ++ tr ++ stray_text c ++ g) true cx (walker_state cx)
+  = Ok (ONode (Some (gen_nodelist 0
+         (cs_acc (pre_flush (walker_state cx) (fst (absorb2 cx (walker_state cx) 0 cs_empty l)) tr
+                            (length (unparse_items2 l)))))))
+       (length (unparse_items2 l) + length tr + length (stray_text c)).
+Proof. exact prefix_closing2_items. Qed.
+
+(** ** The two grammar-independent facts behind it (every string, context, state, fuel)
+
+    [own e]: the error carries a "recovery past token" and is not the expression parser's
+    error 15 — the shape of a collector's rejection of the token it has just read.  Only a
+    collector returns such an error (the general-nodes parser drops the token when it
+    re-wraps an error) ... *)
+Theorem C06_own_error_is_the_collectors : forall s cx f t e p,
+  run s false cx f t = PErr e p -> own e ->
+  match t with TCollect _ _ _ _ => True | _ => False end.
+Proof.
+  intros s cx f t e p H O. pose proof (no_own s cx f t e p H) as N.
+  destruct t; try exact I; exact (N O).
+Qed.
+
+(** ... and the tolerant collector reproduces it verbatim: up to the rejected token the
+    two modes are in lockstep (no nested call failed, or the error would not be the
+    collector's own) *)
+Theorem C06_collector_error_reproduced : forall s cx ps o f st pos e p,
+  run s false cx f (TCollect ps o st pos) = PErr e p -> own e ->
+  run s true cx f (TCollect ps o st pos) = PErr e p.
+Proof. exact lockstep_err. Qed.
+
+(** ** Non-vacuity (extended grammar)
+
+    [a \begin{center}b\section*[x]{y}\end{center} \sqrt{z} ] — an environment whose body
+    holds a macro call with a star, an optional and a mandatory argument; a macro call
+    whose optional argument is absent; trailing whitespace *)
+Definition c06_doc2 : doc2 :=
+  {| d_items2 :=
+      [Text2 [] [97];
+       Env2 [32] [] [99;101;110;116;101;114] []
+            [Text2 [] [98];
+             Mac2 [] [115;101;99;116;105;111;110] []
+                  [Text2 [] [42]; Brk2 [] 91 93 [Text2 [] [120]] []; Grp2 [] [Text2 [] [121]] []]]
+            [] [];
+       Mac2 [32] [115;113;114;116] [] [Abs2; Grp2 [] [Text2 [] [122]] []]];
+     d_trail2 := [32] |}.
+
+Example C06_prefix_closing2_nonvacuous :
+  ok_doc2 default_ctx c06_doc2 = true /\ length (unparse2 c06_doc2) = 54%nat /\
+  length (fst (tree_of2 default_ctx (walker_state default_ctx) 0 c06_doc2)) = 5%nat /\
+  (* each of the four stray tokens: the hypothesis holds, strict parsing fails, and the theorem's
+     equation, evaluated independently *)
+  forallb (fun c => ok_doc2_before default_ctx c06_doc2 (stray_text c ++ c06_garbage))
+          [SBrace; SMClose MParen; SMClose MBracket; SEnd [122;113]] = true /\
+  forallb (fun c => is_perr (parse_top (unparse2 c06_doc2 ++ stray_text c ++ c06_garbage) false default_ctx
+                                       (walker_state default_ctx)))
+          [SBrace; SMClose MParen; SMClose MBracket; SEnd [122;113]] = true /\
+  Forall (fun c =>
+    parse_top (unparse2 c06_doc2 ++ stray_text c ++ c06_garbage) true default_ctx (walker_state default_ctx)
+    = Ok (ONode (Some (gen_nodelist 0 (fst (tree_of2 default_ctx (walker_state default_ctx) 0 c06_doc2)))))
+         (length (unparse2 c06_doc2) + length (stray_text c)))
+    [SBrace; SMClose MParen; SMClose MBracket; SEnd [122;113]].
+Proof.
+  split; [vm_compute; reflexivity|]. split; [vm_compute; reflexivity|]. split; [vm_compute; reflexivity|].
+  split; [vm_compute; reflexivity|]. split; [vm_compute; reflexivity|].
+  repeat constructor; vm_compute; reflexivity.
+Qed.
+
+(** why the hypothesis is about the follow string: the document [a%b] (a comment that ends
+    with the input) is a valid extended document, but it is not well formed in front of [}]
+    — the brace becomes part of the comment, and the tolerant parse of [a%b}] is not the
+    tree of the document *)
+Example C06_prefix2_follow_needed :
+  let d := {| d_items2 := [Text2 [] [97]; Cmt2 [] [98] []]; d_trail2 := [] |} in
+  ok_doc2 default_ctx d = true /\
+  ok_doc2_before default_ctx d (stray_text SBrace) = false /\
+  parse_top (unparse2 d ++ stray_text SBrace) true default_ctx (walker_state default_ctx)
+  <> Ok (ONode (Some (gen_nodelist 0 (fst (tree_of2 default_ctx (walker_state default_ctx) 0 d)))))
+        (length (unparse2 d) + 1).
+Proof. cbv zeta. split; [vm_compute; reflexivity|]. split; [vm_compute; reflexivity|]. vm_compute. discriminate. Qed.
+
+(** ** ... with [ok_doc2 cx d] as the hypothesis, for documents that END WITH WHITESPACE
+    (e.g. a final newline) in contexts none of whose specials sequences contains a backslash
+    or a closing brace ([specials_plain], decidable, true of the default context): then the
+    side conditions, evaluated against the trailing whitespace, still hold in front of a stray
+    closing token and any garbage ([C06_follow_extension_partial], proofs in
+    [Proofs/Prefix2Follow.v]: every side condition of the extended grammar — longest-match
+    specials, absent optional arguments, control-word lookahead, paragraph breaks, verbatim
+    scans — is stable when a non-empty follow string is extended by something that starts
+    like a closing token).  Without trailing whitespace the last item matters
+    ([C06_prefix2_follow_needed]) and [ok_doc2_before] has to be checked directly. *)
+From PLV Require Import Proofs.Prefix2Follow.
+
+Theorem C06_prefix_closing2_ws_partial : forall cx d c g,
+  ok_doc2 cx d = true -> d_trail2 d <> [] -> specials_plain cx = true -> stray_wf c ->
+  parse_top (unparse2 d ++ stray_text c ++ g) true cx (walker_state cx)
+  = Ok (ONode (Some (gen_nodelist 0 (fst (tree_of2 cx (walker_state cx) 0 d)))))
+       (length (unparse2 d) + length (stray_text c)).
+Proof. exact prefix_closing2_ws. Qed.
+
+Theorem C06_follow_extension_partial : forall cx ps ex l (G : str) c g,
+  ok_items2 cx ps ex l G = true -> G <> [] -> specials_plain cx = true -> stray_wf c ->
+  ok_items2 cx ps ex l (G ++ stray_text c ++ g) = true.
+Proof. exact ok_items2_before_stray. Qed.
+
+Example C06_prefix_closing2_ws_nonvacuous :
+  specials_plain default_ctx = true /\ ok_doc2 default_ctx c06_doc2 = true /\ d_trail2 c06_doc2 <> [].
+Proof. split; [vm_compute; reflexivity|]. split; [vm_compute; reflexivity | discriminate]. Qed.
+
+Print Assumptions C06_prefix_closing2_partial.
+Print Assumptions C06_prefix_closing2_items_partial.
+Print Assumptions C06_own_error_is_the_collectors.
+Print Assumptions C06_collector_error_reproduced.
+Print Assumptions C06_prefix_closing2_ws_partial.
+Print Assumptions C06_follow_extension_partial.
